@@ -246,15 +246,24 @@ def close(elt, a, b, scale, tol=1e-11):
         if abs(a) == math.inf or abs(b) == math.inf: return a == b
     return abs(a - b) <= tol * max(scale, 1e-300)
 
+def dense_scale(elt, D):
+    """tolerance scale of the float comparisons of entries: the largest finite magnitude of the dense twin (0 = exact for Rat).
+    An entry is compared normwise, not relative to itself: a sum that cancels to (nearly) zero carries the rounding of its
+    operands (the bit-level demand on every entry is the model tie's, not the oracle's)"""
+    return max([abs(x) for r in D for x in r if isfinite(x)] + [0.0]) if elt != 'rat' else 0
+
 def dense_close(elt, D, E, tol=1e-11):
     n = len(D)
-    sc = max([abs(x) for r in D for x in r if isfinite(x)] + [0.0]) if elt != 'rat' else 0
+    sc = dense_scale(elt, D)
     for i in range(n):
         for j in range(n):
             if not close(elt, D[i][j], E[i][j], sc, tol):
                 return "entry (%d,%d): reference %r, implementation %r" % (i, j, D[i][j], E[i][j])
     return None
 
+# float determinants the oracle makes no demand on (reported in the coverage, zero included)
+DET_UNJUDGED_RANGE = "det-float-unjudged (row-norm product >= 1e300 or not finite)"
+DET_UNJUDGED_NONFINITE = "det-float-unjudged (non-finite entry in the dense twin)"
 SOLVE_BACKWARD = 1e-11
 COND_LIMIT = 1e8
 
@@ -329,6 +338,7 @@ def walk(elt, B, ops, items, stats=None):
         if op[0] == "getall":
             # n*n entries, each a value or a panic
             exp = expect[1]
+            gsc = dense_scale(elt, ref.D)
             for i in range(ref.n):
                 for j in range(ref.n):
                     if items[pos][0] == 'P':
@@ -337,7 +347,7 @@ def walk(elt, B, ops, items, stats=None):
                     else:
                         x, pos = parse_items_scalar(items, pos, elt)
                         if exp[i][j] is None: return "%s: index (%d,%d) is outside the band but the access returned %r" % (what, i, j, x)
-                        if not close(elt, exp[i][j], x, abs(exp[i][j]) if elt != 'rat' else 0):
+                        if not close(elt, exp[i][j], x, gsc):
                             return "%s: element (%d,%d) is %r, the dense twin has %r" % (what, i, j, x, exp[i][j])
             bump("getall")
             continue
@@ -362,7 +372,7 @@ def walk(elt, B, ops, items, stats=None):
             pos += 1
         elif kind == 's':
             x, pos = parse_items_scalar(items, pos, elt)
-            if not close(elt, expect[1], x, abs(expect[1]) if elt != 'rat' else 0):
+            if not close(elt, expect[1], x, dense_scale(elt, ref.D)):
                 return "%s: got %r, dense twin has %r" % (what, x, expect[1])
             bump("get")
         elif kind == 'n':
@@ -396,11 +406,13 @@ def walk(elt, B, ops, items, stats=None):
             elif d is not None:
                 sc = 1.0
                 for r in ref.D: sc *= float(sum(abs(t) for t in r))
-                if elt == 'f64': d = float(d)
                 if isfinite(sc) and sc < 1e300:
+                    if elt == 'f64': d = float(d)          # |det| <= product of the row norms (Hadamard): in range here
                     if not (isfinite(x) and abs(x - d) <= 1e-9 * sc + 1e-300):
                         return "%s: determinant %r, dense twin has %r (row-norm product %g)" % (what, x, d, sc)
                     bump("det-float")
+                else: bump(DET_UNJUDGED_RANGE)
+            else: bump(DET_UNJUDGED_NONFINITE)
         elif kind == 'solve':
             x, pos = parse_items_vec(items, pos, elt)
             b = expect[1]; nn = ref.n; D = ref.D
